@@ -1906,6 +1906,9 @@ static void MPSreadBounds(MPSInput& mps, LPColSetBase<R>& cset, const NameSet& c
          return;
       }
 
+      if(mps.field1() == nullptr)
+         break;
+
       // Is the value field used ?
       if((!strcmp(mps.field1(), "LO"))
             || (!strcmp(mps.field1(), "UP"))
